@@ -26,6 +26,7 @@ type CrashPlan struct {
 	Rng      *simsched.Rand
 	Only     *CrashChoice // replay: evaluate only this image
 	Stop     func() bool
+	SparseK  bool // long logs: skip most crash points that directly follow a plain data page write
 	// Interesting reports whether index k should be evaluated at all (default: log[k-1] is
 	// a mutating op or a marker, or k == len(log)).
 }
@@ -59,6 +60,9 @@ func EnumerateCrashes(log []simdisk.Op, init []byte, p CrashPlan, eval CrashEval
 			if prev != simdisk.OpWrite && prev != simdisk.OpSync && prev != simdisk.OpTruncate && prev != simdisk.OpMarker {
 				continue
 			}
+		}
+		if p.SparseK && k > 0 && k < len(log) && log[k-1].Kind == simdisk.OpWrite && !isHeaderWrite(&log[k-1], p.PageSize) && k%53 != 0 {
+			continue
 		}
 		b.Advance(k)
 		pend := b.PendingOps()
@@ -124,6 +128,26 @@ func EnumerateCrashes(log []simdisk.Op, init []byte, p CrashPlan, eval CrashEval
 		all := mk(func(int) bool { return true })
 		emit(all, -1, 0)
 		tears(all)
+		if n > 64 {
+			// very large pending sets (a transaction with hundreds of page writes
+			// in flight): header only, everything but the header, a few prefixes
+			// and random subsets
+			if hdr >= 0 {
+				one := mk(func(j int) bool { return j == hdr })
+				emit(one, -1, 0)
+				tears(one)
+				emit(mk(func(j int) bool { return j != hdr }), -1, 0)
+			}
+			for i := 0; i < 6; i++ {
+				x := 1 + p.Rng.Intn(n-1)
+				emit(mk(func(j int) bool { return j < x }), -1, 0)
+			}
+			for i := 0; i < p.NRandom; i++ {
+				pr := []float64{0.5, 0.1, 0.9}[i%3]
+				emit(mk(func(int) bool { return p.Rng.Chance(pr) }), -1, 0)
+			}
+			continue
+		}
 		for x := 0; x < n; x++ {
 			emit(mk(func(j int) bool { return j != x }), -1, 0)
 			one := mk(func(j int) bool { return j == x })
